@@ -17,6 +17,7 @@ PROPS = {
             "HqModel.C13.c13_auto_ids",
             "HqModel.C13.c13_auto_id_single",
             "HqModel.C13.c13_completed_once",
+            "HqModel.C13.c13_wait",
         ],
         "parts": [{
             "component": "job", "driver": "hqm-job",
@@ -24,14 +25,24 @@ PROPS = {
             "clauses": ["c13."],
             "quick": {"cases": 40, "shards": 12, "extra": []},
             "thorough": {"cases": 400, "shards": 16, "extra": []},
+        }, {
+            # submit with wait/progress under a slow journal flush: the waiting connection goes through the real
+            # client_rpc_loop / start_streaming; the journal sink answers flush requests only when the harness says so
+            "component": "job", "driver": "hqm-job", "name": "job_wait",
+            "tags": ["ev", "ret", "core", "job", "tasks", "live", "wait", "!panic"],
+            "clauses": ["c13."],
+            "quick": {"cases": 20, "shards": 12, "extra": ["--wait"]},
+            "thorough": {"cases": 200, "shards": 16, "extra": ["--wait"]},
         }],
         "assumptions": [
             "job-layer model M4 (lean/HqModel/Job/Model.lean) is hand-written from job.rs/state.rs/submit.rs/client/mod.rs; "
             "it is tied to the code only by the sampled correspondence of this check",
             "submits are non-empty and id arrays are non-overlapping (what the hq client produces); timestamps, names, "
             "program definitions and worker ids inside task data are not modelled",
-            "the clause 'a client that submits with wait receives the completion report' depends on the journal-flush await "
-            "between handle_submit and listener registration (tokio scheduling) and is not covered by a theorem yet",
+            "c13_wait: no completion report of the job lies before the accepted submit, so a listener registered while the submit "
+            "is processed receives every completion report; THAT the real listener is registered at that point (fix 6bae9eb; "
+            "before it: after the journal-flush await, defect F5) is checked on every run on simulated cluster runs with a "
+            "slow journal flush through the real client_rpc_loop / start_streaming (part job_wait, out-tag wait, monitor c13.wait)",
         ],
         "trusted_base": SIM_TRUST,
     },
